@@ -81,13 +81,14 @@ theorem shutdown_completes_full_fails : ¬ shutdown_completes_full := by
   | nil => simp [srun] at hr; subst hr; rw [hnf] at hfin; exact absurd hfin (by simp)
   | cons l t => rw [hstuck l t (hint l (by simp))] at hr; exact absurd hr (by simp)
 
-/-- `Close` has the shape the LTS models: unsynchronised check, quit event, flag, deferred
-`close(chQuit)`, `Suspend`; `Suspend` starts with the `suspended` guard and then signals, provokes a
-DA1 reply and waits. -/
+/-- `Close` and `Suspend` have the protocol skeleton the LTS models: unsynchronised check of
+`closed`, quit event, flag, deferred `close(chQuit)`, `Suspend`, console close; `Suspend`: the
+`suspended` guard, close signal, DA1 query, wait. (Locals, logging and terminal restoration are not
+part of the skeleton.) -/
 theorem close_shape :
-    Gen.Conc.stmts_Close.take 5 = ["if vx.closed { return }", "vx.PostEvent(QuitEvent{})", "vx.closed = true",
-      "defer close(vx.chQuit)", "vx.Suspend()"] ∧
-    Gen.Conc.stmts_Suspend.take 5 = ["if vx.suspended { return nil }", "vx.suspended = true", "vx.parser.Close()",
-      "io.WriteString(vx.console, primaryAttributes)", "vx.parser.WaitClose()"] := by decide +kernel
+    Gen.Conc.skeleton_Close = ["if:vx.closed", "vx.PostEvent", "set:vx.closed=true", "defer:close(vx.chQuit)",
+      "vx.Suspend", "vx.console.Close"] ∧
+    Gen.Conc.skeleton_Suspend = ["if:vx.suspended", "set:vx.suspended=true", "vx.parser.Close", "io.WriteString",
+      "vx.parser.WaitClose"] := by decide +kernel
 
 end VaxisModel.Props.C10Shutdown
